@@ -1,6 +1,6 @@
 package main
 
-// HISTORIES over ONE build.NewMultiArch value (C14, also run by glue-pure): k rounds of resolution with repository
+// HISTORIES over ONE build.NewMultiArch value (C14, suite glue-avail): k rounds of resolution with repository
 // updates between the rounds.  An update rewrites one architecture's index of one repository — a build withdrawn, a
 // newer build published, a build the siblings already carry published here as well, the identical content published
 // again, the original content restored.  File repositories are rewritten with a strictly later mtime; HTTP
